@@ -13,6 +13,21 @@ use crate::props::common::*;
 
 pub struct C02;
 
+/// Option space of C02 (values quarantined as known-finding classes are listed in DESIGN §6).
+pub const SPACE: ConfSpace = ConfSpace {
+    exclude: &[],
+    exclude_values: &[],
+    allow_2027: true,
+    min_edition: "2015",
+    max_extra: 4,
+    whitespace_axes: false,
+};
+
+/// `corpus:path#ci+n` -> `corpus:path#ci` (findings are keyed by the first chunk of a run).
+pub fn chunk_key(origin: &str) -> String {
+    origin.split('+').next().unwrap_or(origin).to_owned()
+}
+
 impl Property for C02 {
     fn id(&self) -> &'static str {
         "C02"
@@ -20,8 +35,8 @@ impl Property for C02 {
     fn params(&self, tier: Tier) -> Params {
         Params {
             cases: match tier {
-                Tier::Quick => 8_000,
-                Tier::Thorough => 200_000,
+                Tier::Quick => 0,
+                Tier::Thorough => 0,
             },
             max_bytes: 768,
             timeout: Duration::from_secs(20),
@@ -29,6 +44,19 @@ impl Property for C02 {
     }
     fn rule(&self) -> &'static str {
         "corpus chunks / generated programs, re-laid out, under a random configuration; oracle: fmt(fmt(x)) == fmt(x) byte for byte and the second run reports no error; judged only when the first run reports no error; non-trivial = first run changed the text and some output line is within 3 columns of max_width; distinct by case content"
+    }
+    fn enum_len(&self, g: &GenCtx) -> usize {
+        grid_len(g, 8_000, 400_000)
+    }
+    fn enum_case(&self, g: &GenCtx, i: usize) -> Option<Value> {
+        let n = self.enum_len(g);
+        let cell = grid_pick(g, "C02", n, i, &SPACE, false);
+        if g.known_sigs.contains(&format!("nonidempotent:{}", chunk_key(&cell.src.origin)))
+            || g.known_sigs.contains(&format!("second-run-error:{}", chunk_key(&cell.src.origin)))
+        {
+            return None;
+        }
+        Some(cell_case(&cell))
     }
     fn generate(&self, c: &mut Choices<'_>, g: &GenCtx) -> Value {
         let s = gen_source(c, g, &SrcSpace::default());
@@ -65,7 +93,7 @@ impl Property for C02 {
         }
         if !o2.clean() {
             let mut f = Outcome::fail(
-                format!("second-run-error:{origin}"),
+                format!("second-run-error:{}", chunk_key(origin)),
                 format!(
                     "the second run reports an error: err={:?} parse={} panic={:?}\n{}",
                     o2.err, o2.has_parsing_errors, o2.escaped_panic, o2.report
@@ -77,7 +105,7 @@ impl Property for C02 {
         }
         if o2.text != o1.text {
             let mut f = Outcome::fail(
-                format!("nonidempotent:{origin}"),
+                format!("nonidempotent:{}", chunk_key(origin)),
                 format!("fmt(fmt(x)) != fmt(x); {}", first_diff(&o1.text, &o2.text)),
             );
             f.labels = o.labels;
